@@ -41,6 +41,8 @@ structure Rel (s : St) (a : Sp) : Prop where
   hist_len : a.posP ≤ a.hist.length
   content : ∀ q, a.pubC ≤ q → q < a.posP → s.slots.getD (q % s.len) 0 = a.hist.getD q 0
   mask_len : a.mask.length = a.pubC
+  /-- no Rust object is larger than `isize::MAX` bytes: the length fits 63 bits (what the unchecked and wrapping index arithmetic relies on) -/
+  len_lt : s.len < 2 ^ 63
 
 /-- The documented contract of the operations (what a caller of the `unsafe` functions must guarantee),
     evaluated against the *true* availability. Operations on an iterator that was dropped, or that does
